@@ -637,10 +637,10 @@ def valid_cookie_value(v):
     return v is not None and all(0x20 <= c < 0x7f and c not in b'";\\' for c in v)
 
 
-def oracle_special(ops, replies):
+def oracle_special(ops, replies, request_object=True):
     """Direct oracle (no model) for one header name: writes to a header that is not protected succeed; after a whole
     set every spelling reads the value through both read paths; after unset not set; a cookie set with a value a cookie
-    can carry reads back; the two spellings always read the same."""
+    can carry reads back (request objects only: elsewhere Cookie is an ordinary header); the two spellings always read the same."""
     out = []
     last = None
     block = {}
@@ -673,7 +673,7 @@ def oracle_special(ops, replies):
             want = "N" if o[0] == "g" else "S"
             if rep != want:
                 out.append("after %s %s: %s %s reads %s, expected %s" % (last[0], last[1], o[0], o[1], rep[:60], want))
-        elif last[0] == "s" and lk and o[0] == "g" and tk == lk and ln.lower() == "cookie" and valid_cookie_value(last[2]) \
+        elif last[0] == "s" and lk and o[0] == "g" and tk == lk and ln.lower() == "cookie" and request_object and valid_cookie_value(last[2]) \
                 and not (len(last[2]) > 1 and last[2][:1] == b'"' and last[2][-1:] == b'"'):
             if rep != "S" + last[2].hex():
                 out.append("after set %s = %r: %s reads %s" % (last[1], last[2], o[1], rep[:60]))
